@@ -2,7 +2,7 @@
 Require Import Cirbo.Model.Base Cirbo.Model.Gate Cirbo.Model.Circuit Cirbo.Model.History
         Cirbo.Model.Cnf Cirbo.Model.TseytinAlg.
 Require Import Cirbo.Generated.Tseytin.
-Open Scope Z_scope.
+Local Open Scope Z_scope.
 
 (* (circuit, `outputs` argument, the implementation's get_raw() or its exception) *)
 Definition tseytin_case : Type := (circuit * option (list Z) * res (list (list Z)))%type.
